@@ -240,10 +240,42 @@ fn families(tier: Tier) -> Vec<(&'static str, Vec<String>, usize)> {
         ),
         d(5, 7),
     ));
+    // The same two expiry families on an executor configured the way a production shard configures it: a start epoch
+    // that is not on a whole second (set_simulation_start_epoch(ms / 1000) then set_simulation_start_epoch_ms(ms)), so
+    // that unix time = epoch + virtual time and second- and millisecond-based deadlines take different routes.
+    // Absolute timestamps of the alphabet are moved by the epoch.
+    for (src, name) in [("expiry-set", "expiry-set@epoch"), ("expiry-cmds", "expiry-cmds@epoch")] {
+        let (_, ops, _) = out.iter().find(|f| f.0 == src).cloned().expect("family exists");
+        let shifted: Vec<String> = ops.iter().map(|o| shift_absolute(o)).collect();
+        out.push((name, shifted, d(3, 5)));
+    }
     out
 }
 
+/// start epoch of the "@epoch" families (ms; deliberately not a multiple of 1000)
+const EPOCH_MS: u64 = 1_700_000_000_700;
+static ACTIVE_EPOCH_MS: std::sync::atomic::AtomicU64 = std::sync::atomic::AtomicU64::new(0);
+
+/// Move the absolute timestamps of one alphabet line by the epoch: seconds after EXAT / EXPIREAT, milliseconds after
+/// PXAT / PEXPIREAT (plain non-negative numerals below 10^12 only: the overflow and invalid probes stay as they are).
+fn shift_absolute(line: &str) -> String {
+    let toks: Vec<&str> = line.split(' ').collect();
+    let mut out: Vec<String> = Vec::new();
+    for (i, t) in toks.iter().enumerate() {
+        let prev = if i > 0 { toks[i - 1].to_ascii_uppercase() } else { String::new() };
+        let prev2 = if i > 1 { toks[i - 2].to_ascii_uppercase() } else { String::new() };
+        let unit = if prev == "EXAT" || prev2 == "EXPIREAT" { Some(1000u64) } else if prev == "PXAT" || prev2 == "PEXPIREAT" { Some(1) } else { None };
+        match (unit, t.parse::<u64>()) {
+            (Some(u), Ok(n)) if n > 0 && n < 1_000_000_000_000 => out.push((n + EPOCH_MS / u).to_string()),
+            _ => out.push(t.to_string()),
+        }
+    }
+    out.join(" ")
+}
+
 struct Sys {
+    /// unix ms = epoch + the executor's virtual ms (the model lives in unix ms)
+    epoch: u64,
     ex: CommandExecutor,
     model: Model,
 }
@@ -257,18 +289,24 @@ impl Sys {
     }
 
     fn new() -> Self {
+        let epoch = ACTIVE_EPOCH_MS.load(std::sync::atomic::Ordering::Relaxed);
         let mut ex = CommandExecutor::new();
+        if epoch > 0 {
+            ex.set_simulation_start_epoch((epoch / 1000) as i64);
+            ex.set_simulation_start_epoch_ms(epoch as i64);
+        }
         ex.set_time(VirtualTime::from_millis(T0));
         Sys {
             ex,
-            model: Model::new(T0),
+            epoch,
+            model: Model::new(epoch + T0),
         }
     }
 
     fn exec_impl(&mut self, a: &Argv) -> RespValue {
         match resp::parse(a) {
             Ok(cmd) => {
-                self.ex.set_time(VirtualTime::from_millis(self.model.now));
+                self.ex.set_time(VirtualTime::from_millis(self.model.now - self.epoch));
                 match std::panic::catch_unwind(std::panic::AssertUnwindSafe(|| self.ex.execute(&cmd))) {
                     Ok(r) => r,
                     Err(p) => RespValue::Error(format!("PANIC {}", vh::panic_text(&p)).into()),
@@ -320,7 +358,7 @@ impl Sys {
         if name == "ADVANCE" {
             let ms: u64 = String::from_utf8_lossy(&op[1]).parse().unwrap();
             self.model.advance(ms);
-            self.ex.set_time(VirtualTime::from_millis(self.model.now));
+            self.ex.set_time(VirtualTime::from_millis(self.model.now - self.epoch));
             return (None, "advance".into());
         }
         if name == "SCANALL" {
@@ -525,6 +563,9 @@ fn main() {
         let r = vh::report::load_replay(path);
         let hist: Vec<Argv> = r["history"].as_array().map(|a| a.iter().map(resp::argv_from_json).collect()).unwrap_or_default();
         let op = resp::argv_from_json(&r["op"]);
+        if r["family"].as_str().map(|f| f.ends_with("@epoch")).unwrap_or(false) {
+            ACTIVE_EPOCH_MS.store(EPOCH_MS, std::sync::atomic::Ordering::Relaxed);
+        }
         match run_checked(&hist, &op) {
             Ok(fp) => {
                 println!("replay: no violation; state {fp}");
@@ -552,6 +593,7 @@ fn main() {
                 continue;
             }
         }
+        ACTIVE_EPOCH_MS.store(if name.ends_with("@epoch") { EPOCH_MS } else { 0 }, std::sync::atomic::Ordering::Relaxed);
         let ops: Vec<Argv> = alphabet.iter().map(|l| resp::line(l)).collect();
         let mut bfs = Bfs::new(ops.len(), depth);
         bfs.deadline = Some(Instant::now() + per_family_budget);
